@@ -1124,6 +1124,7 @@ STATEMENTS: dict[str, str] = {
 	'evict_keeps_written': 'after a cache miss the file named by the current identity exists and holds the fresh value, whatever the eviction glob matched',
 	'evict_safe': 'both coherence invariants (tree/parser cache, symbol cache) survive the deletion of an arbitrary list of cache files: the over-matching glob is benign',
 	'truncate': 'no proper prefix of the compact JSON encoding of an object/array is bracket-balanced outside string literals (JSON printer model)',
+	'truncate_decoder': 'decoder level, no "rejects unbalanced text" assumption: with the model of json.dumps (compact) / json.loads of Model/JsonCodec.lean (round trip proved there, tied to CPython by the C15 streams) a written object or array decodes to exactly the value written and NO proper prefix of the file decodes — Hyp.valid_parse / prefix_invalid / dec_prefix for the two JSON layers as theorems about that decoder',
 	'symbols': 'for every semantics, import graph and acyclic history without a grammar change: the symbol table of every module in the warm run = its table in the run over the cleared cache directory (Module.identity over the import closure, c3eaa55); "restore is faithful" is the explicit hypothesis Hyp.dec_enc = C14.rt composed with the JSON round trip',
 	'symbols_partial_closure': 'key coverage: an identity is the digest of the (file, hash) pairs of an import-closed set of files; two source states that give a module the same identity give it the same cache-free symbol table (id_covers; collect_closure: __collect_hashes returns such a set)',
 	'output_warm_cold': 'for every semantics (every renderer), acyclic history without interrupted write and grammar change: warm and cold run have the same cycle flag and, if clear, the same rendered texts, the same failure status (error), the same loaded modules, trees, identities, symbol tables and recorded output hashes (lockstep simulation)',
@@ -1208,7 +1209,7 @@ def run(ctx: Ctx) -> int:
 		partial={
 			'sentence 1 (warm output = cold output)': 'proved on the model: output_warm_cold (rendered text, failure status, loaded modules, trees, tables equal) for acyclic import graphs, histories without interrupted write / grammar change; tree_key, symbols also for histories with trunc ops (per module, when both runs succeed)',
 			'sentence 1 (no cache file read or written when disabled)': 'proved (disabled)',
-			'sentence 2 (damaged file: rebuild or fail)': 'truncate (JSON printer model) + Hyp.prefix_invalid / dec_prefix inside tree_key/symbols/parser_key (histories contain trunc ops); parser_truncated; that pickle.load / json.load reject every proper prefix of the real files is validated by the truncation search',
+			'sentence 2 (damaged file: rebuild or fail)': 'truncate_decoder (the modelled json.loads accepts the whole file and rejects every proper prefix of a written object/array) and truncate (bracket balance, JSON printer model) discharge Hyp.prefix_invalid / dec_prefix for the JSON layers (tree, symbol files) at the decoder-model level; inside tree_key/symbols/parser_key they stay hypotheses of the abstract semantics (histories contain trunc ops); parser_truncated; for the pickle (parser.cache-*.bin) prefix rejection is search-only (truncation search, every offset sampled)',
 			'search_only': 'the real renderer and analyser (parameters of the model); output equality on the real code',
 			'regression': 'corpus/C05: the histories that violated the property before a3f0216 / a383b4a / 9dfb5b4 are replayed first and must pass',
 			'key coverage': 'per cache, over key lists GENERATED from the source: parser_key_covers (covers), tree_key_covers (covers since 9dfb5b4; run-level: tree_key admits ParserSetting switches, tree_key_setting), symbol_key_covers (covers the import closure; symbol_key_no_grammar: nothing of the grammar — `symbols`/`output_warm_cold` assume no grammar change); tree_name_exact / parser_name_exact tie the model\'s file names to the generated lists in both directions; the symbol identity is tied statement by statement (symbol_identity_shape), its reading as identityCore/collect is by inspection',
@@ -1216,7 +1217,7 @@ def run(ctx: Ctx) -> int:
 		assumptions=[
 			'every edit gives the file an mtime it never had before (model op `edit` draws from the clock) — needed by tree_key while the tree identity has no content hash (tree_key_covers_bytes); the real code is searched with recurring mtimes (op `editat`), the recurrence within one generation is the known finding tree-stale:mtime-recurs-same-generation',
 			'md5 is injective on the identities of a history and hex digests contain no "-" (Hyp.tree_inj, parser_inj, hash_inj, identL_inj, *_nodash) — hypotheses of the theorems, instantiated by unary codes in the examples',
-			'the decoders reject every proper prefix of what the encoders wrote and accept the whole (Hyp.valid_parse, valid_blob, prefix_invalid, dec_prefix)',
+			'the decoders reject every proper prefix of what the encoders wrote and accept the whole (Hyp.valid_parse, valid_blob, prefix_invalid, dec_prefix): a theorem for the modelled JSON decoder (truncate_decoder), an assumption for pickle.load (searched)',
 			'a stored symbol table is restored as it was: Hyp.dec_enc — property C14 (C14.rt: export then import restores every entry) composed with the JSON round trip',
 			'module keys contain no "-" and differ from "parser.cache" (KeyOK); the cache directory is disjoint from the source directories',
 			'import graphs are acyclic (Acyclic / cyc = false): inside a cycle a module that is still loading contributes only its direct imports to an identity and the table of a module depends on the entry point of the traversal; termination on cycles (visited dict) is shown on an example and by the fuel-free run of the model, the general fuel bound of `collect` is not proved',
